@@ -216,6 +216,10 @@ func genPod(r *rand.Rand, i int) *v1.Pod {
 	if r.Intn(3) == 0 {
 		p.Spec.Overhead = genList(r)
 	}
+	if r.Intn(6) == 0 {
+		// pod-level resources (a newer API field): not part of the definition
+		p.Spec.Resources = &v1.ResourceRequirements{Requests: genList(r), Limits: genList(r)}
+	}
 	if r.Intn(4) == 0 {
 		p.Status.Phase = v1.PodPending
 	} else {
@@ -345,6 +349,9 @@ func runC13(tier string, seed int64, si, sn int, rep *monitor.Report, note func(
 			}
 			if p.DeletionTimestamp != nil {
 				rep.Covered(P, "calc:pod-being-deleted:phase="+string(p.Status.Phase))
+			}
+			if p.Spec.Resources != nil && len(p.Spec.Resources.Requests) > 0 {
+				rep.Covered(P, "calc:pod-with-pod-level-requests")
 			}
 			for _, ic := range p.Spec.InitContainers {
 				if ic.RestartPolicy != nil && len(ic.Resources.Requests) > 0 {
